@@ -22,7 +22,7 @@ func init() {
 
 // esc makes s a single line without tabs: \n -> \\n, tab -> \\t, backslash -> \\\\,
 // and the field separators '|' -> \\p, ';' -> \\s.
-func esc(s string) string {
+func vesc(s string) string {
 	var b strings.Builder
 	for i := 0; i < len(s); i++ {
 		switch c := s[i]; c {
@@ -45,7 +45,7 @@ func esc(s string) string {
 	return b.String()
 }
 
-func unesc(s string) string {
+func vunesc(s string) string {
 	var b strings.Builder
 	for i := 0; i < len(s); i++ {
 		if s[i] != '\\' || i+1 >= len(s) {
@@ -71,7 +71,7 @@ func unesc(s string) string {
 	return b.String()
 }
 
-type runResult struct {
+type vRunResult struct {
 	exit   string // "0", "1", ..., "HANG", "SIG<n>", "ERR"
 	stdout []byte
 	stderr []byte
@@ -79,7 +79,7 @@ type runResult struct {
 
 // runCmd runs argv with extra environment under a timeout; the process group is killed on
 // timeout, which is reported as exit "HANG".
-func runCmd(timeout time.Duration, env []string, dir string, argv ...string) runResult {
+func runCmd(timeout time.Duration, env []string, dir string, argv ...string) vRunResult {
 	ctx, cancel := context.WithTimeout(context.Background(), timeout)
 	defer cancel()
 	cmd := exec.CommandContext(ctx, argv[0], argv[1:]...)
@@ -89,7 +89,7 @@ func runCmd(timeout time.Duration, env []string, dir string, argv ...string) run
 	cmd.Stdout, cmd.Stderr = &so, &se
 	cmd.WaitDelay = 2 * time.Second
 	err := cmd.Run()
-	res := runResult{stdout: so.Bytes(), stderr: se.Bytes()}
+	res := vRunResult{stdout: so.Bytes(), stderr: se.Bytes()}
 	switch {
 	case ctx.Err() == context.DeadlineExceeded:
 		res.exit = "HANG"
@@ -136,15 +136,6 @@ func rlimitMain(args []string) {
 		fmt.Fprintln(os.Stderr, "exec:", err)
 		os.Exit(2)
 	}
-}
-
-func knutBin() string {
-	b := os.Getenv("KNUT_BIN")
-	if b == "" {
-		fmt.Fprintln(os.Stderr, "KNUT_BIN is not set (checks/*.py must declare NEEDS_KNUT = True)")
-		os.Exit(3)
-	}
-	return b
 }
 
 func workTemp(prefix string) string {
